@@ -1301,7 +1301,11 @@ impl<'de, 'e> de::Deserializer<'de> for YamlDeserializer<'de, 'e> {
                         } else {
                             ".inf".to_string()
                         };
-                        return visitor.visit_string(canon);
+                        // (lent when it is spelled exactly like that in the input)
+                        return match cow {
+                            Cow::Borrowed(b) if b == canon => visitor.visit_borrowed_str(b),
+                            _ => visitor.visit_string(canon),
+                        };
                     }
                 }
 
@@ -1544,20 +1548,9 @@ impl<'de, 'e> de::Deserializer<'de> for YamlDeserializer<'de, 'e> {
 
         // Consume scalar and rely on the parser's own borrowing promise:
         // `Cow::Borrowed` indicates the scalar exists verbatim in the backing input.
-        let (cow, _tag, scalar_location) = self.take_scalar_cow_with_location()?;
+        let (cow, _tag, _loc) = self.take_scalar_cow_with_location()?;
         if let Cow::Borrowed(b) = cow {
             return visitor.visit_borrowed_str(b);
-        }
-        // The parser copies whatever it has to assemble (block scalars, scalars of several lines).
-        // What it assembled may still stand in the input verbatim - the text of a one-line block
-        // scalar does - and is then lent like any other scalar.
-        if let Some(input) = self.ev.input_for_borrowing()
-            && let Some(start) = scalar_location.span().byte_offset()
-            && let Some(end) = (start as usize).checked_add(cow.len())
-            && let Some(verbatim) = input.get(start as usize..end)
-            && verbatim == cow.as_ref()
-        {
-            return visitor.visit_borrowed_str(verbatim);
         }
 
         // Fall back to owned string. If the caller required a borrowed string (`&str`),
